@@ -170,6 +170,42 @@ CHECKS = {
         technique="exhaustive code-word enumeration + Hypothesis, relational oracle inside one decoded result",
         engine="refsensor",
     ),
+    "C14": dict(
+        category="exploration",
+        text="The finite space of Modbus model configurations (every serial tag of goodwe/model.py incl. 25KET/29K9ET and a neutral "
+             "tag x 3 rated-power classes x battery on/off x all 32 subsets of refused optional blocks x UDP/TCP for ET; tags x 8 "
+             "refusal subsets x UDP/TCP for DT) is enumerated completely. read_device_info() and two read_runtime_data() calls run "
+             "against a simulated inverter returning exact-length answers with ProtocolResponse.read instrumented: every read "
+             "performed while a sensor is decoded must return as many bytes as requested.",
+        design_ref="DESIGN.md section 4, C14",
+        note="exhaustive over the stated configuration space; observes only reads through ProtocolResponse.read (all sensor decoding).",
+        technique="complete configuration enumeration with instrumented reads on a simulated inverter",
+        engine="siminv",
+    ),
+    "C15": dict(
+        category="exploration",
+        text="For every serial tag x power class x refusal subset x battery state (stable 3-call sequences, enumerated) and for "
+             "Hypothesis-generated sequences whose refusal set / battery state changes between calls, read_runtime_data() is run "
+             "against a simulated inverter; whenever a call returns, its key set must equal the ids of sensors() and both must agree "
+             "with a stateful reference capability model; a call may fail only in the documented double meter fallback and the next "
+             "call must succeed. About 1% of the cases also run end-to-end on the virtual loop.",
+        design_ref="DESIGN.md section 4, C15",
+        note="Reference capability model written from the documented model rules (745 platform / rated power thresholds, sticky flags).",
+        technique="configuration enumeration + Hypothesis call sequences against a simulated inverter with a reference capability model",
+        engine="siminv",
+    ),
+    "C16": dict(
+        category="exploration",
+        text="After read_device_info(), histories of {bulk read, battery appearing/disappearing, blocks starting/stopping to be refused, "
+             "second read_device_info, read_sensor of every listed id} run against a register file that is constant between a bulk "
+             "read and the single reads compared with it: read_sensor(id) must equal the bulk value (or raise ValueError where the bulk "
+             "value is None) and never fail with NotImplementedError/unknown sensor for a listed id. All (tag, power class) x image "
+             "classes are enumerated for the plain history, capability-changing histories come from Hypothesis.",
+        design_ref="DESIGN.md section 4, C16",
+        note="Simulated register file, direct path (request building, validation, ProtocolResponse are the library's own).",
+        technique="configuration x register-image enumeration + Hypothesis histories, single-vs-bulk differential",
+        engine="siminv",
+    ),
 }
 
 def main():
